@@ -60,12 +60,13 @@ Cfg2(pol, wd) ==
 \* program: an instance under another task than its program (the event task), under the task of
 \* its program (runs after EVERY program of that task), instances of a background program, a
 \* task that has only an FB instance, two instances of one program under different tasks, an
-\* instance that writes a bound output
+\* instance that writes a bound output, an instance named by a two-part path (member `f` of
+\* another FB instance `g1` of the program, which itself never executes)
 Cfg3(pol, wd) ==
   [tasks |-> << T("T0", 2, "", 1), T("T1", 0, "s1", 0), T("T2", 3, "", 1) >>,
    programs |-> << P("P0", "T0", << Cp("ix", "qx") >>), P("P1", "", << >>), P("P2", "T0", << >>) >>,
    fbs |-> << Fb("P0", "f0", "T1", << Cp("ib", "qb") >>), Fb("P0", "f1", "T0", << >>),
-              Fb("P1", "f0", "T2", << >>), Fb("P1", "f1", "T0", << >>) >>,
+              Fb("P1", "f0", "T2", << >>), Fb("P1", "g1.f", "T0", << >>) >>,
    bindings |-> << B("ix", "I", "X", 0, 1, "BOOL"), B("qx", "Q", "X", 0, 7, "BOOL"),
                    B("ib", "I", "B", 0, 0, "BYTE"), B("qb", "Q", "B", 1, 0, "BYTE") >>,
    drivers |-> Drivers2, policy |-> pol, wd |-> wd,
